@@ -22,6 +22,11 @@ import heapq
 import inspect
 
 
+def _resolve_future(fut):
+    if not fut.done():
+        fut.set_result(None)
+
+
 class HarnessError(Exception):
     """A defect or limit of the simulator itself (never a property verdict)."""
 
@@ -44,6 +49,14 @@ class SimLoop(asyncio.BaseEventLoop):
         self.task_failures = []   # (task, exception) of non-harness tasks
         self.callback_failures = []  # contexts passed to the exception handler
         self._in_harness = 0
+        # Order among *external* events that complete at the same simulated
+        # instant (client timers, backend completions, operator events): in
+        # reality they differ by microseconds, so any order is realistic; the
+        # world supplies a draw function and the loop permutes only handles
+        # it was told are external.  Timers of the code under test keep their
+        # heap order (their real deadlines are ordered by scheduling time).
+        self.tie_breaker = None
+        self._external_ids = set()    # id() of timer handles of external events (TimerHandle has __slots__)
         self.set_exception_handler(self._on_exception)
 
     # -- clock -----------------------------------------------------------
@@ -115,6 +128,7 @@ class SimLoop(asyncio.BaseEventLoop):
             self._timer_cancelled_count -= 1
             h = heapq.heappop(sched)
             h._scheduled = False
+            self._external_ids.discard(id(h))
         if not self._ready:
             if not sched:
                 return False
@@ -122,16 +136,62 @@ class SimLoop(asyncio.BaseEventLoop):
             if when > self._vtime:
                 self._vtime = when
         end_time = self._vtime + self._clock_resolution
+        due = []
         while sched:
             h = sched[0]
             if h._when >= end_time:
                 break
             h = heapq.heappop(sched)
             h._scheduled = False
-            self._ready.append(h)
+            due.append(h)
+        if len(due) > 1 and self.tie_breaker is not None and self._external_ids:
+            self._permute_external_ties(due)
+        if self._external_ids:
+            for h in due:
+                self._external_ids.discard(id(h))
+        self._ready.extend(due)
         self._ntodo = len(self._ready)
         self.iterations += 1
         return True
+
+    def _permute_external_ties(self, due):
+        i = 0
+        n = len(due)
+        while i < n:
+            j = i + 1
+            while j < n and due[j]._when == due[i]._when:
+                j += 1
+            if j - i > 1:
+                idx = [k for k in range(i, j)
+                       if id(due[k]) in self._external_ids and not due[k]._cancelled]
+                if len(idx) > 1:
+                    hs = [due[k] for k in idx]
+                    # Fisher-Yates driven by the tape (0 = keep heap order)
+                    for a in range(len(hs) - 1):
+                        b = a + self.tie_breaker(len(hs) - a)
+                        hs[a], hs[b] = hs[b], hs[a]
+                    for k, h in zip(idx, hs):
+                        due[k] = h
+            i = j
+
+    def call_later_external(self, delay, callback, *args):
+        h = self.call_later(delay, callback, *args)
+        self._external_ids.add(id(h))
+        return h
+
+    def call_at_external(self, when, callback, *args):
+        h = self.call_at(when, callback, *args)
+        self._external_ids.add(id(h))
+        return h
+
+    async def sleep_external(self, delay):
+        """asyncio.sleep for harness tasks whose wake-up is an external event."""
+        fut = self.create_future()
+        h = self.call_later_external(delay, _resolve_future, fut)
+        try:
+            return await fut
+        finally:
+            h.cancel()
 
     def step(self):
         """Run exactly one handle. Returns False when the loop is idle (no
